@@ -35,6 +35,11 @@ type Client struct {
 	plan  map[int]Outcome
 	// lag, when set, serves reads of the selected kinds from an older store version.
 	lag func(gk schema.GroupKind) (behind int64, ok bool)
+	// CacheReads makes List behave like controller-runtime's informer-cache reader instead of the
+	// API server: a Limit truncates the result WITHOUT a continue token, and a request that
+	// carries a continue token is refused (cache_reader.go). Controllers built on mgr.GetClient()
+	// read this way.
+	CacheReads bool
 	// OnCall, if set, is invoked (unlocked) before every call with the call index.
 	OnCall func(idx int, verb string)
 	// FaultFn, if set, is consulted for calls that have no planned fault: it may select an
@@ -420,7 +425,18 @@ func (c *Client) List(_ context.Context, list client.ObjectList, opts ...client.
 	// pagination: a page holds at most min(limit, PageCap) items; the continue token is the
 	// offset into the (key-ordered) full result
 	next := ""
-	if page := pageSize(lo.Limit, w.PageCap); page > 0 || lo.Continue != "" {
+	if c.CacheReads {
+		if lo.Continue != "" {
+			e := fmt.Errorf("continue list option is not supported by the cache")
+			ev.Err = e.Error()
+			w.record(&ev)
+			w.mu.Unlock()
+			return e
+		}
+		if lo.Limit > 0 && int64(len(items)) > lo.Limit {
+			items = items[:lo.Limit]
+		}
+	} else if page := pageSize(lo.Limit, w.PageCap); page > 0 || lo.Continue != "" {
 		off := 0
 		if lo.Continue != "" {
 			if _, serr := fmt.Sscanf(lo.Continue, "off:%d", &off); serr != nil || off < 0 {
